@@ -11,7 +11,7 @@ import numpy as np
 import sympy
 from formak.exceptions import MinimizationFailure, ModelConstructionError
 from numpy.typing import NDArray
-from scipy.optimize import minimize
+from scipy.optimize import OptimizeResult, minimize
 from sklearn.base import BaseEstimator
 from sympy import Matrix, Symbol, cse, simplify
 from sympy.utilities.lambdify import lambdify
@@ -940,9 +940,18 @@ class SklearnEKFAdapter(BaseEstimator):
             self.set_params(**holdout_params)
             return score
 
-        minimize_this(x0)
+        try:
+            minimize_this(x0)
 
-        result = minimize(minimize_this, x0, tol=1.0e-1)
+            result = minimize(minimize_this, x0, tol=1.0e-1)
+        except np.linalg.LinAlgError as error:
+            # The score of a candidate could not be evaluated (e.g. a singular
+            # innovation covariance): report it as a failed minimization
+            raise MinimizationFailure(
+                OptimizeResult(
+                    success=False, message=f"Numerical failure while scoring: {error}"
+                )
+            ) from error
 
         if not result.success:
             raise MinimizationFailure(result)
